@@ -330,3 +330,137 @@ func init() {
 		MinReach: []string{"end"}, TVVectors: 2,
 	})
 }
+
+func init() {
+	register(&Property{
+		ID: "C09", Dirs: []string{"root"},
+		Jobs: func(tier string) []Job {
+			n, pp := 2, 3
+			if tier == "thorough" {
+				n, pp = 3, 4
+			}
+			jobs := []Job{{Harness: "VX_C09_observe", Params: P("n", itoa(n), "P", itoa(pp))}}
+			for _, sk := range []string{"ifb", "se", "i"} {
+				p2 := pp
+				if sk == "se" && tier != "thorough" {
+					p2 = 2
+				}
+				jobs = append(jobs, Job{Harness: "VX_C09_equals", Params: P("skel", sk, "n", itoa(n), "P", itoa(p2))})
+			}
+			for _, c := range []string{"renamed", "reordered", "enum_vs_string", "float_vs_int", "fewer_cols", "fewer_rows"} {
+				jobs = append(jobs, Job{Harness: "VX_C09_mismatch", Params: P("case", c)})
+			}
+			for _, op := range []string{"filter", "sort", "slice", "select", "copy"} {
+				jobs = append(jobs, Job{Harness: "VX_C09_rebuild", Params: P("op", op, "n", itoa(n), "P", itoa(pp))})
+			}
+			return jobs
+		},
+		Bounds: func(tier string) string {
+			if tier == "thorough" {
+				return "frames of n=3 logical rows over P=4 physical rows in every arrangement with all five column types (strings 1 byte, one nullable cell per string/enum column); pairs of frames with independent symbolic indexes"
+			}
+			return "frames of n=2 logical rows over P=3 physical rows in every arrangement with all five column types (strings 1 byte, one nullable cell per string/enum column); pairs of frames with independent symbolic indexes"
+		},
+		Assume: []string{
+			"decimal text of symbolic numbers is an injective fixed-width model (DESIGN 3.4); the real digit code is C16's",
+			"ToCSV is observed through a recording model of encoding/csv.Writer (quoting layer is C13's); ToJSON records are checked under C14",
+			"String() is compared with a transcription of its documented layout (width max(len(header),5), '...' truncation, 50-row cap not reached)",
+		},
+		Outside:  []string{"more than 3 rows; the 50-row cut of String", "ToJSON (see C14)"},
+		MinReach: []string{"end"}, TVVectors: 2,
+	})
+}
+
+func init() {
+	c10cases := []string{"filter_unknown_col", "filter_unknown_cmp_int", "filter_unknown_cmp_float", "filter_unknown_cmp_bool", "filter_unknown_cmp_string", "filter_unknown_cmp_enum", "filter_cmp_not_string", "filter_fn_wrong_type_int", "filter_fn_wrong_type_string", "filter_fn_wrong_type_enum", "filter_arg_wrong_type_int", "filter_arg_wrong_type_float", "filter_arg_int_for_float", "filter_arg_nan", "filter_arg_wrong_type_bool", "filter_arg_wrong_type_string", "filter_arg_wrong_type_enum", "filter_arg_struct", "filter_arg_nil_cmp_lt", "filter_arg_mixed_list", "filter_arg_list_for_lt", "filter_unknown_arg_col", "filter_arg_col_type_mismatch", "filter_arg_col_type_mismatch2", "filter_fn2_without_col", "filter_enum_unknown_value", "filter_bad_regex", "filter_bad_regex_enum", "and_empty", "or_empty", "not_invalid", "nested_invalid", "inverse_invalid", "sort_unknown", "select_unknown", "slice_bad", "copy_unknown", "copy_badname", "apply_unknown_src", "apply_unknown_src2", "apply_fn_wrong_type", "apply_fn_wrong_type_string", "apply_fn_wrong_type_enum", "apply_fn0_invalid", "apply_fn0_func_wrong", "apply_fn2_mismatched_cols", "apply_fn2_wrong_fn", "apply_fn2_mismatched_string_enum", "apply_unknown_builtin", "apply_unknown_builtin_int", "apply_unknown_builtin2", "apply_bad_dst", "apply_empty_dst", "apply_copy_unknown", "filteredapply_invalid_clause", "filteredapply_invalid_instr", "eval_unknown_fn", "eval_bad_dst", "distinct_unknown", "rownums_bad_name", "groupby_unknown", "aggregate_unknown_col", "aggregate_unknown_fn", "aggregate_fn_wrong_type", "aggregate_fn_wrong_type_string", "aggregate_fn_wrong_type_enum", "aggregate_on_group_col", "aggregate_duplicate", "aggregate_string_builtin"}
+	register(&Property{
+		ID: "C10", Dirs: []string{"root"},
+		Jobs: func(tier string) []Job {
+			var jobs []Job
+			for _, c := range c10cases {
+				jobs = append(jobs, Job{Harness: "VX_C10_invalid", Params: P("case", c)})
+			}
+			jobs = append(jobs, Job{Harness: "VX_C10_views"})
+			firsts := []string{"filter_unknown_col", "and_empty", "sort_unknown", "apply_fn0_invalid", "slice_bad", "groupby_unknown"}
+			if tier == "thorough" {
+				firsts = c10cases
+			}
+			for _, c := range firsts {
+				jobs = append(jobs, Job{Harness: "VX_C10_sticky", Params: P("first", c)})
+			}
+			return jobs
+		},
+		Bounds: func(tier string) string {
+			return "69 misuse cases (one invalid argument per call: unknown columns, comparators, function/argument types outside the documented unions, illegal names, bad slice bounds over all ints, empty And/Or, malformed expressions, mismatched column types, invalid aggregations) on a derived frame with one column per type and symbolic cells; sticky-error chains of every chainable operation after 6 (thorough: every) first error"
+		},
+		Assume:   []string{"documented panics (Must*View, ItemAt out of range, DivI by zero) are excluded", "a panic on any feasible path is a violation (engine-level obligation)"},
+		Outside:  []string{"two simultaneous misuses in one call", "ReadCSV/ReadJSON/ReadSQL argument misuse (C12, C15)"},
+		MinReach: []string{"end"}, TVVectors: 1,
+	})
+}
+
+var c01ops = []string{"filter", "filter_or", "filter_notand", "filter_inv", "sort", "sort2", "slice", "slice_tail", "select", "drop", "copy", "copy_over",
+	"apply_fn1", "apply_fn2", "apply_const", "apply_upper", "filtered_apply", "eval", "rownums", "distinct", "aggregate", "qframes", "views", "tocsv", "tojson", "string", "equals"}
+
+func c01jobs(tier string, strict bool) []Job {
+	var jobs []Job
+	st := "false"
+	if strict {
+		st = "true"
+	}
+	n, pp := 3, 4
+	if tier == "thorough" {
+		n, pp = 4, 5
+	}
+	for _, op := range c01ops {
+		jobs = append(jobs, Job{Harness: "VX_C01_persist", Params: P("ops", op, "n", itoa(n), "P", itoa(pp), "strict", st)})
+	}
+	// false twins (vacuity guards): must be refuted
+	jobs = append(jobs, Job{Harness: "VX_C01_persist", Params: P("ops", "x_inplace_swap", "n", itoa(n), "P", itoa(pp), "strict", st), ExpectSat: true})
+	if strict {
+		jobs = append(jobs, Job{Harness: "VX_C01_persist", Params: P("ops", "x_append_spare", "n", itoa(n), "P", itoa(pp), "strict", st), ExpectSat: true})
+	}
+	pairs := []string{"slice,sort", "slice,filter_or", "sort,slice", "filter,apply_fn1", "slice,filter_notand", "sort,sort2", "copy,apply_fn2", "select,copy", "filter,distinct", "slice,qframes", "apply_fn1,eval", "slice_tail,filter", "filter,filter_inv", "slice,aggregate", "sort,filtered_apply", "rownums,sort"}
+	if tier == "thorough" {
+		for _, a := range []string{"slice", "sort", "filter", "slice_tail", "copy", "apply_fn1"} {
+			for _, b := range c01ops {
+				pairs = append(pairs, a+","+b)
+			}
+		}
+		pairs = append(pairs, "slice,sort,filter_or", "sort,slice,filter", "filter,sort,slice", "slice,slice_tail,sort", "copy,apply_fn2,eval")
+	}
+	for _, p := range pairs {
+		jobs = append(jobs, Job{Harness: "VX_C01_persist", Params: P("ops", p, "n", itoa(n), "P", itoa(pp), "strict", st)})
+		jobs = append(jobs, Job{Harness: "VX_C01_persist", Params: P("ops", p, "n", itoa(n), "P", itoa(pp), "strict", st, "on0", "1")})
+	}
+	return jobs
+}
+
+func init() {
+	register(&Property{
+		ID: "C01", Dirs: []string{"root"},
+		Jobs:   func(tier string) []Job { return c01jobs(tier, false) },
+		Bounds: func(tier string) string {
+			if tier == "thorough" {
+				return "family {base (P=5 rows, shared column storage via Copy), f0 = permuted+sliced frame with spare index capacity (n=4), results}; numeric cells symbolic, string/enum cells concrete; every one of 27 operations as single step; 6x27 two-step histories applied both to the newest member and to the shared ancestor; 5 three-step histories; every member re-observed (Len, names, types, Err, every cell through the typed views) after every step"
+			}
+			return "family {base (P=4 rows, shared column storage via Copy), f0 = permuted+sliced frame with spare index capacity (n=3), results}; numeric cells symbolic, string/enum cells concrete; every one of 27 operations as single step; 16 two-step histories applied both to the newest member and to the shared ancestor; every member re-observed after every step"
+		},
+		Assume:   []string{"frames are built through New/Copy/withIndex/Slice so that column storage and index storage are shared", "user functions uninterpreted; hash uninterpreted"},
+		Outside:  []string{"histories longer than 3; more than 3 physical rows", "Append, Rolling"},
+		MinReach: []string{"end"}, TVVectors: 1, Solver: "z3-new -in",
+	})
+	register(&Property{
+		ID: "C11", Dirs: []string{"root"}, Level: "other",
+		Jobs:   func(tier string) []Job { return c01jobs(tier, true) },
+		Bounds: func(tier string) string {
+			return "same operation set and frame families as C01; obligation per step: the engine's write monitor saw no store (Store, copy, in-place append, map update) into any memory cell reachable from any family member (including spare capacity behind slices) and no store to a package-level variable"
+		},
+		Assume: []string{
+			"REDUCED FORM: interleavings are not encoded (no Go memory-model encoder available). Decided instead: every operation writes only to memory it allocated itself during the call. By the Go memory model, operations that only read shared locations cannot race, so this sequential condition implies race freedom for any multiset of these operations under every schedule; determinism of each operation gives 'same result as alone'",
+			"math/rand, regexp, unicode, strconv, fmt are goroutine-safe per their documentation (trusted)",
+		},
+		Outside:  []string{"user callbacks that themselves share state", "operations outside the C01 operation set"},
+		MinReach: []string{"end"}, TVVectors: 0, Solver: "z3-new -in",
+	})
+}
